@@ -114,6 +114,10 @@ class AntiSymmetricTensor(SymbolicTensor):
                                s.name[0]) for s in upper]
                 if lower_names < upper_names:
                     return True
+                elif lower_names == upper_names:
+                    # identical names: multiple indices with the same name
+                    if [hash(s) for s in lower] < [hash(s) for s in upper]:
+                        return True
         return False
 
     def _latex(self, printer) -> str:
